@@ -63,7 +63,7 @@ pub const INT_POOL: &[i128] = &[
 pub const STR_POOL: &[&str] = &[
     "", "a", "b", "ab", "abc", "bad", "!x", "!", "x", "0", "1", "-1", "255", "256", "+5", "05", "true", "null",
     "hello", "Hello", "HELLO", "é", "ß", "日本", "a\u{301}", "🥺", "a,b", "1,2,3", ",,1,,", "1,x", " ", "a b",
-    "a.b", "a[0]", "`", "\"", "\\", "\n",
+    "a.b", "a[0]", "`", "\"", "\\", "\n", ".a", ".", "..", "a.", "[1]", "$id", "-", " asc", "asc ", "\tx",
 ];
 
 pub const PLAIN_STR_POOL: &[&str] = &[
